@@ -262,18 +262,36 @@ func genC19(r *Runner) {
 	// authentic signing time
 	zero := time.Time{}
 	for _, scheme := range []signature.SigningScheme{signature.SigningSchemeX509, signature.SigningSchemeX509SigningAuthority, "", "notary.x509.signingauthority", "other"} {
-		for _, t := range []time.Time{zero, time.Unix(0, 0), time.Unix(1700000000, 5), baseTime()} {
-			si := &signature.SignerInfo{}
-			si.SignedAttributes.SigningScheme = scheme
-			si.SignedAttributes.SigningTime = t
-			got, err := si.AuthenticSigningTime()
-			impl := map[string]any{"time": nil}
-			if err == nil {
-				impl["time"] = got.Unix()*1000000000 + int64(got.Nanosecond())
+		for _, t := range []time.Time{zero, time.Unix(0, 0), time.Unix(1700000000, 5), baseTime(), baseTime().In(time.FixedZone("", 5*3600+1800))} {
+			// everything else a SignerInfo carries: the answer depends on the scheme and the signing time alone
+			for oi, other := range []func(si *signature.SignerInfo){
+				func(si *signature.SignerInfo) {},
+				func(si *signature.SignerInfo) { si.SignedAttributes.Expiry = t },
+				func(si *signature.SignerInfo) { si.SignedAttributes.Expiry = t.In(time.FixedZone("", -7*3600)) },
+				func(si *signature.SignerInfo) { si.SignedAttributes.Expiry = t.Add(-time.Second) },
+				func(si *signature.SignerInfo) { si.SignedAttributes.Expiry = t.Add(-1000 * time.Hour) },
+				func(si *signature.SignerInfo) { si.SignedAttributes.Expiry = t.Add(time.Hour) },
+				func(si *signature.SignerInfo) {
+					si.SignedAttributes.ExtendedAttributes = []signature.Attribute{{Key: "io.cncf.notary.authenticSigningTime", Critical: true, Value: "2001-01-01T00:00:00Z"}}
+					si.UnsignedAttributes.TimestampSignature = []byte{1, 2, 3}
+					si.UnsignedAttributes.SigningAgent = "agent"
+					si.Signature = []byte{1}
+					si.SignatureAlgorithm = signature.AlgorithmES256
+				},
+			} {
+				si := &signature.SignerInfo{}
+				si.SignedAttributes.SigningScheme = scheme
+				si.SignedAttributes.SigningTime = t
+				other(si)
+				got, err := si.AuthenticSigningTime()
+				impl := map[string]any{"time": nil}
+				if err == nil {
+					impl["time"] = got.Unix()*1000000000 + int64(got.Nanosecond())
+				}
+				r.Submit(&Case{ID: fmt.Sprintf("authtime-%s-%d-%d", scheme, t.Unix(), oi), K: "authtime",
+					In:   map[string]any{"authority": scheme == signature.SigningSchemeX509SigningAuthority, "st": tsec(t)},
+					Impl: impl, Class: "authentic-signing-time", Replay: map[string]any{"scheme": string(scheme), "signing_time": t.String(), "other_fields_variant": oi}})
 			}
-			r.Submit(&Case{ID: fmt.Sprintf("authtime-%s-%d", scheme, t.Unix()), K: "authtime",
-				In:   map[string]any{"authority": scheme == signature.SigningSchemeX509SigningAuthority, "st": tsec(t)},
-				Impl: impl, Class: "authentic-signing-time"})
 		}
 	}
 	r.sum.Exhaustive = true
